@@ -476,6 +476,105 @@ fn qs_modulus(n0: &Uint, use_mult: bool) -> Tally {
     t
 }
 
+/// History part for the classical sieve. The real `qsieve()` is run single-threaded (stopped by
+/// the abort predicate after `max_lg` large blocks) and the root tables it installs after each
+/// large-block shift are observed through the hook: after j shifts they must hold exactly the
+/// roots of the polynomial on the j-th large block, forward and backward, for every base prime.
+static QS_HISTORY_PANICS: std::sync::atomic::AtomicU64 = std::sync::atomic::AtomicU64::new(0);
+
+fn qs_history(n0: &Uint, use_mult: bool, max_lg: u64) -> Tally {
+    use std::cell::RefCell;
+    use std::rc::Rc;
+    use std::sync::atomic::{AtomicU64, Ordering};
+    use std::sync::Arc;
+    let mut t = Tally {
+        evals: 0,
+        polys: 0,
+        nexts: 0,
+        bad: vec![],
+    };
+    let k = if use_mult { fbase::select_multiplier(*n0).0 } else { 1 };
+    let n = *n0 * Uint::from_digit(k as u64);
+    if n.bits() > 400 || n0.bits() < 40 {
+        return t;
+    }
+    type Obs = Vec<(bool, Vec<u32>, Vec<u32>)>;
+    let obs: Rc<RefCell<Obs>> = Default::default();
+    let r = guarded(|| {
+        let o2 = obs.clone();
+        qsieve::verif_access::ROOTS_OBSERVER.with(|o| {
+            *o.borrow_mut() = Some(Box::new(move |bck: bool, r1: &[u32], r2: &[u32]| {
+                if o2.borrow().len() < 64 {
+                    o2.borrow_mut().push((bck, r1.to_vec(), r2.to_vec()))
+                }
+            }))
+        });
+        let mut prefs = Preferences::default();
+        prefs.verbosity = Verbosity::Silent;
+        let polls = Arc::new(AtomicU64::new(0));
+        prefs.should_abort = Some(Box::new(move || polls.fetch_add(1, Ordering::SeqCst) + 1 >= max_lg));
+        let _ = qsieve::qsieve(*n0, k, &prefs, None);
+    });
+    qsieve::verif_access::ROOTS_OBSERVER.with(|o| *o.borrow_mut() = None);
+    if let Err(p) = r {
+        // a crash of the sieve itself is C03's clause (its fbase-divisor and corpus families drive
+        // qsieve through factor()); here it only means that no table could be observed
+        QS_HISTORY_PANICS.fetch_add(1, std::sync::atomic::Ordering::SeqCst);
+        eprintln!("note: qsieve({}, k={}) panicked during the history run (not judged by C12): {}", n0, k, p.short());
+        return t;
+    }
+    let r = guarded(|| {
+        let fbsz = yamaquasi::params::qs_fb_size(n0.bits(), n.bits() > 200);
+        let fb = FBase::new(Int::cast_from(n), fbsz);
+        let qs = qsieve::SieveQS::new(n, &fb, fb.bound() as u64, false);
+        let (nsqrt, only_odds, nblocks) = qsieve::verif_access::sieve_params(&qs);
+        let lg = (nblocks * 32768) as u64;
+        let mut cnt = [0u64; 2];
+        for (bck, r1, r2) in obs.borrow().iter() {
+            cnt[*bck as usize] += 1;
+            let j = cnt[*bck as usize];
+            t.polys += 1;
+            t.nexts += 1;
+            if r1.len() != fb.len() || r2.len() != fb.len() {
+                t.bad.push(Bad {
+                    key: "sieve=qs-history;what=table-length".into(),
+                    what: format!("qsieve({}, k={}): observed tables of {} primes, reconstructed base has {}", n0, k, r1.len(), fb.len()),
+                });
+                return;
+            }
+            for i in 0..fb.len() {
+                let p = fb.p(i) as u64;
+                if p == 2 && only_odds {
+                    continue; // documented superset (0,1)
+                }
+                let nm = umod(&n, p);
+                let rm_ = imod(&nsqrt, p);
+                let step = if only_odds { 2 } else { 1 };
+                let off = (lg % p) * (j % p) % p;
+                let bck = *bck;
+                let eval = |x: u64| -> u64 {
+                    let xx = (x % p + off) % p;
+                    let y = if !bck { (rm_ + step * xx) % p } else { (rm_ + p * step - (step * ((xx + 1) % p)) % p) % p };
+                    (mulmod(y, y, p) + p - nm) % p
+                };
+                let degenerate = fb.r(i) == 0;
+                let cx = || format!("qsieve n={} k={} {} table after {} large-block shifts, prime #{} only_odds={}", n0, k, if bck { "backward" } else { "forward" }, j, i, only_odds);
+                t.evals += check_roots(p, r1[i] as u64, r2[i] as u64, &eval, false, degenerate, "qs-history", &cx, &mut t.bad);
+                if t.bad.len() > 6 {
+                    return;
+                }
+            }
+        }
+    });
+    if let Err(p) = r {
+        t.bad.push(Bad {
+            key: format!("sieve=qs-history;what=panic;site={}", p.site),
+            what: format!("reference for qsieve({}, k={}): panic {}", n0, k, p.short()),
+        });
+    }
+    t
+}
+
 fn fbase_check(n0: &Uint, t: &mut Tally) {
     for sz in [8u32, 64, 100, 1000] {
         let fb = FBase::new(Int::cast_from(*n0), sz);
@@ -517,6 +616,7 @@ pub fn run(ctx: &Ctx) -> Report {
     let max_polys = ctx.pick(256usize, 4096);
     let na = ctx.pick(2usize, 3);
     let mpolys = ctx.pick(12usize, 40);
+    let qs_hist_max: u32 = ctx.pick(160, 256);
     let jobs: Vec<(usize, bool)> = (0..ms.len()).flat_map(|i| [(i, false), (i, true)]).collect();
     let res: Vec<(Tally, Tally, Tally)> = jobs
         .par_iter()
@@ -527,7 +627,15 @@ pub fn run(ctx: &Ctx) -> Report {
                 fbase_check(n, &mut s);
             }
             let m = mpqs_modulus(n, mult, mpolys);
-            let q = qs_modulus(n, mult);
+            let mut q = qs_modulus(n, mult);
+            // classical sieve history: the real qsieve() over its first large blocks
+            if n.bits() >= 40 && n.bits() <= qs_hist_max {
+                let h = qs_history(n, mult, 5);
+                q.evals += h.evals;
+                q.polys += h.polys;
+                q.nexts += h.nexts;
+                q.bad.extend(h.bad);
+            }
             (s, m, q)
         })
         .collect();
@@ -550,10 +658,11 @@ pub fn run(ctx: &Ctx) -> Report {
     rep.set("moduli", J::from(ms.len()));
     rep.set("polynomials", J::from(polys));
     rep.set("gray_code_steps", J::from(nexts));
+    rep.set("qsieve_history_runs_that_panicked_not_judged_here", J::from(QS_HISTORY_PANICS.load(std::sync::atomic::Ordering::SeqCst)));
     rep.sample(J::obj(vec![("n", J::s(ms[ms.len() - 1])), ("bits", J::from(ms[ms.len() - 1].bits())), ("multiplier", J::s("1 and select_multiplier(n)"))]));
     rep.sample(J::obj(vec![("n", J::s(ms[0])), ("bits", J::from(ms[0].bits()))]));
     rep.sample(J::obj(vec![("walk", J::s("Poly::first, then next() x (2^(nfacs-1) - 1) (capped)")), ("cap", J::from(max_polys))]));
-    rep.rule = format!("moduli: for each size in {:?} and each class 1,3,5,7 mod 8 the first integer >= 2^(b-1) without prime factors below 1000, with multiplier 1 and with select_multiplier's k. SIQS: real parameter functions, real select_siqs_factors/select_a/prepare_a; the first {} and the last A; the whole Gray-code family (capped at {} polynomials) walked through the real Poly::first/next (states = polynomials, transitions = next() calls); at every index: y^2 - 4A*P(x) = n or 4n at x = -1,0,1 (a polynomial identity), eval consistent with (A,B,C), A = product of its primes, and for EVERY factor base prime both stored roots are roots of P(start+x) mod p, below p, distinct when two roots exist, and for p < 4096 the brute-force zero set equals the table exactly (p = 2: superset). MPQS: the first {} D values from the real sieve_for_polys around the real target, make_poly identity y^2 = P(x) mod n at three points and prepare_prime roots for every prime (incl. D inside the factor base). Classical QS: forward/backward root preparation for every prime, both parities, and after 1, 2, 17 large-block shifts. FBase::new: r^2 = n mod p, primes, index, length multiple of 8.", sizes, na, max_polys, mpolys);
+    rep.rule = format!("moduli: for each size in {:?} and each class 1,3,5,7 mod 8 the first integer >= 2^(b-1) without prime factors below 1000, with multiplier 1 and with select_multiplier's k. SIQS: real parameter functions, real select_siqs_factors/select_a/prepare_a; the first {} and the last A; the whole Gray-code family (capped at {} polynomials) walked through the real Poly::first/next (states = polynomials, transitions = next() calls); at every index: y^2 - 4A*P(x) = n or 4n at x = -1,0,1 (a polynomial identity), eval consistent with (A,B,C), A = product of its primes, and for EVERY factor base prime both stored roots are roots of P(start+x) mod p, below p, distinct when two roots exist, and for p < 4096 the brute-force zero set equals the table exactly (p = 2: superset). MPQS: the first {} D values from the real sieve_for_polys around the real target, make_poly identity y^2 = P(x) mod n at three points and prepare_prime roots for every prime (incl. D inside the factor base). Classical QS: forward/backward root preparation for every prime, both parities, and after 1, 2, 17 large-block shifts (reference shift); history part: the REAL qsieve() is run on every modulus of 40..{} bits (both multipliers) until its 5th large block and the root tables it installs after each large-block shift (observed through hook H6) must hold exactly the roots of the polynomial on that block, forward and backward, for every base prime. FBase::new: r^2 = n mod p, primes, index, length multiple of 8.", sizes, na, max_polys, mpolys, qs_hist_max);
     rep.assumptions.push("reference arithmetic: bnum I256 remainder, u128 modular arithmetic".into());
     rep
 }
